@@ -155,7 +155,10 @@ func shapes() []Shape {
 	}))
 	sh = append(sh, mk("packet index crosses 2^32", false, func(k int) *ref.StreamSpec {
 		p := simplePkts(k, "f1.pcap", C("a"), S("b"), C("c"))
-		p[0].Index, p[1].Index, p[2].Index = 1<<32-1-uint64(k), 1<<32+uint64(k), 1<<33+5+uint64(k)
+		// first packets of the streams of one file lie in different 2^32 windows, and their order by the
+		// low 32 bits differs from their order by the full index
+		p[0].Index = []uint64{1<<32 + 5, 10, 1<<33 + 1}[k%3]
+		p[1].Index, p[2].Index = p[0].Index+1<<32-3, p[0].Index+1<<33
 		return &ref.StreamSpec{Client: A, Server: B, CPort: 1013, SPort: 80, Start: start(k), Pkts: p}
 	}))
 	sh = append(sh, mk("server data only", false, func(k int) *ref.StreamSpec {
